@@ -263,10 +263,13 @@ impl FromStr for HandRangeToken {
 
         if single_card_pair_regex.is_match(s) {
             if let Ok(card_pair) = (&s[0..4]).parse::<CardPair>() {
-                return Ok(HandRangeToken::new(
-                    HandRangeTokenKind::SingleCardPair(card_pair),
-                    parse_probability(&s[4..]),
-                ));
+                // hole cards are two different cards: "AsAs" is not a combo
+                if card_pair[0] != card_pair[1] {
+                    return Ok(HandRangeToken::new(
+                        HandRangeTokenKind::SingleCardPair(card_pair),
+                        parse_probability(&s[4..]),
+                    ));
+                }
             }
         }
 
